@@ -77,13 +77,14 @@ IsValidPoint(ls, k) ==
 \* (the statement says "closed rings" without naming the dimensions: closure in X and Y is undisputed, whether the Z ordinate
 \* must agree too is a choice - PostGIS compares it, JTS does not.  The state carries the choice (cz); the observation
 \* checker accepts a parser that behaves like EITHER reading, consistently within one parse.)
-ClosureDims(l, cz) == IF cz /\ l \in {"XYZ", "XYZM"} THEN 3 ELSE 2
+\* cz: "xy" (JTS), "xyz" (PostGIS, lex.go today), "all" (every ordinate, M included)
+ClosureDims(l, cz) == IF cz = "all" THEN StrideOf(l) ELSE IF cz = "xyz" /\ l \in {"XYZ", "XYZM"} THEN 3 ELSE 2
 Closed(first, last, l, cz) == \A i \in 1..ClosureDims(l, cz) : first[i] = last[i]
 
 \* ---------------------------------------------------------------- parser state
 S0z(cz) == [st |-> "run", sem |-> "ok", ctl |-> <<<<"END">>, <<"G">>>>, ls |-> InitLS, npts |-> 0,
-            first |-> <<>>, last |-> <<>>, kids |-> <<>>, log |-> <<>>, cz |-> cz]
-S0 == S0z(TRUE)                      \* what lex.go does today: Z takes part in the closure test
+            first |-> <<>>, last |-> <<>>, kids |-> <<>>, log |-> <<>>, cz |-> cz, why |-> ""]
+S0 == S0z("xyz")                     \* what lex.go does today: Z takes part in the closure test
 
 Rej(s)      == [s EXCEPT !.st = "synrej"]
 Pop1(s)     == [s EXCEPT !.ctl = Front(s.ctl)]
@@ -101,10 +102,10 @@ GeoDone(s) == IF s.kids = <<>> THEN s
 Then(s, nm, arg, r0, F(_)) ==
   IF s.sem = "rej" \/ nm = "" THEN
      (CASE r0.res = "ok" \/ s.sem = "rej" -> F(IF s.sem = "rej" THEN s ELSE WithLS(s, r0))
-        [] r0.res = "err" -> F([s EXCEPT !.sem = "rej"])
+        [] r0.res = "err" -> F([s EXCEPT !.sem = "rej", !.why = IF @ = "" THEN nm ELSE @])
         [] OTHER -> [s EXCEPT !.st = r0.res])
   ELSE CASE r0.res = "ok"  -> F(Log(WithLS(s, r0), nm, arg, TRUE, r0.ls))
-         [] r0.res = "err" -> F(Log([s EXCEPT !.sem = "rej"], nm, arg, FALSE, s.ls))
+         [] r0.res = "err" -> F(Log([s EXCEPT !.sem = "rej", !.why = IF @ = "" THEN nm ELSE @], nm, arg, FALSE, s.ls))
          [] OTHER          -> [s EXCEPT !.st = r0.res]
 
 CloseGC(s) ==                                       \* geometry_collection reduced; then the `geometry:` action
@@ -114,7 +115,7 @@ CloseGC(s) ==                                       \* geometry_collection reduc
   ELSE LET cur == Top(r.ls).l
            mine == s.kids[Len(s.kids)]
            s1 == Log([WithLS(s, r) EXCEPT !.kids = Front(s.kids)], "Pop", "", TRUE, r.ls) IN
-       IF \E i \in DOMAIN mine : mine[i] # cur THEN GeoDone([s1 EXCEPT !.sem = "rej"])  \* SetLayout -> ErrLayoutMismatch
+       IF \E i \in DOMAIN mine : mine[i] # cur THEN GeoDone([s1 EXCEPT !.sem = "rej", !.why = IF @ = "" THEN "CloseGC" ELSE @])  \* SetLayout -> ErrLayoutMismatch
        ELSE GeoDone(s1)
 
 EmptyNm(b) == IF b THEN "Empty" ELSE ""
@@ -176,9 +177,9 @@ Step(s, tok) ==
                  (IF s.sem = "rej" THEN Pop1(s)
                   ELSE IF top[2] = "RING"
                   THEN LET ok == s.npts >= 4 /\ Closed(s.first, s.last, Top(s.ls).l, s.cz) IN
-                       Pop1(Log(IF ok THEN s ELSE [s EXCEPT !.sem = "rej"], "Ring", "", ok, s.ls))
+                       Pop1(Log(IF ok THEN s ELSE [s EXCEPT !.sem = "rej", !.why = IF @ = "" THEN "Ring" ELSE @], "Ring", "", ok, s.ls))
                   ELSE LET ok == s.npts >= 2 IN
-                       Pop1(Log(IF ok THEN s ELSE [s EXCEPT !.sem = "rej"], "LS", "", ok, s.ls)))
+                       Pop1(Log(IF ok THEN s ELSE [s EXCEPT !.sem = "rej", !.why = IF @ = "" THEN "LS" ELSE @], "LS", "", ok, s.ls)))
             [] OTHER   -> Rej(s))
     [] top[1] = "MP_I" ->
          (CASE k = "P" -> Then(s, "Pt", tok[2], IsValidPoint(s.ls, tok[2]), LAMBDA x : Repl(x, <<<<"MP_S", top[2]>>>>))
